@@ -131,7 +131,13 @@ pub fn filter_file_rule(
   let mut ret = smallvec![grep.clone()];
   if let Some(injected) = lang.injectable_sg_langs() {
     let docs = grep.inner.get_injections(|s| SgLang::from_str(s).ok());
+    // several injectable names can mean one language (`js` and `javascript`): scan it once
+    let mut seen: Vec<SgLang> = vec![];
     for l in injected {
+      if seen.contains(&l) {
+        continue;
+      }
+      seen.push(l);
       // one language can be injected under several names (`<script>`, `<script lang="js">`,
       // `<script lang="javascript">`): every one of its documents is scanned
       let mut of_lang = docs.iter().filter(|d| *d.lang() == l).peekable();
